@@ -58,20 +58,31 @@ def build(m):
     # ---- Delimiter ---------------------------------------------------------------------------
     m.predicate('DELIM_OK', ['d'], 'len(d.type) == d.number and d.number == d.end - d.start and d.number >= 1 and d.start >= 0')
     m.predicate('EMPH', ['d'], "field(d, '__has_open') and field(d, '__has_close')")
+    # an emphasis entry is a run of one emphasis character (established by find_core_tokens, kept by remove)
+    m.predicate('EMPH_RUN', ['d'], "implies(EMPH(d), (d.type[0] == '*' or d.type[0] == '_') and "
+                                   "forall(lambda k: d.type[k] == d.type[0], 0, len(d.type)))")
     m.methods[('Delimiter', '__init__')] = MOD + ':Delimiter.__init__'
     m.add(Contract(MOD + ':Delimiter.__init__', [('self', DL), ('start', INT), ('end', INT), ('string', STR)],
-                   requires=RANGE + ["not field(self, '__has_open')", "not field(self, '__has_close')"],
-                   ensures=['DELIM_OK(self)', 'self.type == string[start:end]', 'self.active',
-                            'self.orig_number == end - start',
+                   requires=RANGE + ["not field(self, '__has_open')", "not field(self, '__has_close')",
+                                     # C06 / C02: what goes on the delimiter stack is a link/image opener or a run of
+                                     # one emphasis character (never an unrelated neighbour character)
+                                     ("string[start:end] == '[' or string[start:end] == '![' or "
+                                      "((string[start] == '*' or string[start] == '_') and "
+                                      "forall(lambda k: implies(start <= k and k < end, string[k] == string[start]), 0, len(string)))")],
+                   ensures=['DELIM_OK(self)', 'self.type == string[start:end]', 'self.active', 'EMPH_RUN(self)',
+                            'self.orig_number == end - start', 'self.start == start', 'self.end == end',
                             "implies(self.type.startswith('*') or self.type.startswith('_'), EMPH(self))",
+                            "field(self, '__has_open') == field(self, '__has_close')",
+                            "implies(EMPH(self), self.type.startswith('*') or self.type.startswith('_'))",
                             "implies(EMPH(self), self.open == SPEC_CAN_OPEN(string[start], PREV(start, string), NEXT(end, string)))",
                             "implies(EMPH(self), self.close == SPEC_CAN_CLOSE(string[start], PREV(start, string), NEXT(end, string)))"],
                    modifies=['self.type', 'self.number', 'self.active', 'self.start', 'self.end', 'self.open',
-                             'self.close', 'self.__has_open', 'self.__has_close', 'self.orig_number'], prop=P))
+                             'self.close', 'self.__has_open', 'self.__has_close', 'self.orig_number'], prop=P,
+                   options={'slice_axioms': True}))
     m.methods[('Delimiter', 'remove')] = MOD + ':Delimiter.remove'
     m.add(Contract(MOD + ':Delimiter.remove', [('self', DL), ('n', INT), ('left', BOOL, mk_bool(True))], returns=BOOL,
-                   requires=['DELIM_OK(self)', '1 <= n', 'n <= self.number'],
-                   ensures=['result == (old(self.number) != n)',
+                   requires=['DELIM_OK(self)', '1 <= n', 'n <= self.number', 'EMPH_RUN(self)'],
+                   ensures=['result == (old(self.number) != n)', 'EMPH_RUN(self)',
                             # the delimiter invariant survives a partial removal (index safety of
                             # every later type[0] / string[start] depends on it)
                             'implies(result, DELIM_OK(self))',
@@ -80,7 +91,8 @@ def build(m):
                             'implies(result and not left, self.start == old(self.start) and self.end == old(self.end) - n)',
                             'implies(not result, self.number == old(self.number) and self.type == old(self.type) '
                             'and self.start == old(self.start) and self.end == old(self.end))'],
-                   modifies=['self.start', 'self.end', 'self.number', 'self.type'], prop=P))
+                   modifies=['self.start', 'self.end', 'self.number', 'self.type'], prop=P,
+                   options={'slice_axioms': True}))
     m.predicate('SPEC_RULE3', ['oo', 'oc', 'on', 'co', 'cc', 'cn'],
                 'implies((oo and oc) or (co and cc), (on + cn) % 3 != 0 or (on % 3 == 0 and cn % 3 == 0))')
     m.methods[('Delimiter', 'closed_by')] = MOD + ':Delimiter.closed_by'
@@ -120,7 +132,7 @@ def build2(m):
     # every stack entry keeps the delimiter invariant, lies inside the string, and emphasis entries
     # carry both flags; entries are pairwise different objects
     m.predicate('STACK_OK', ['ds', 'string'],
-                "forall(lambda i: DELIM_OK(ds[i]) and ds[i].end <= len(string) and "
+                "forall(lambda i: DELIM_OK(ds[i]) and ds[i].end <= len(string) and EMPH_RUN(ds[i]) and "
                 "field(ds[i], '__has_open') == field(ds[i], '__has_close'), 0, len(ds)) and "
                 "forall(lambda i, j: implies(i < j, ds[i] != ds[j]), 0, len(ds), 0, len(ds))")
     m.predicate('CLOSER_AT', ['ds', 'p'], "EMPH(ds[p]) and ds[p].close")
@@ -144,7 +156,9 @@ def build2(m):
     m.add(Contract(MOD + ':process_emphasis',
                    [('string', STR), ('stack_bottom', TOpt(INT)), ('delimiters', TList(DL)), ('matches', TList(MO))],
                    requires=['STACK_OK(delimiters, string)',
-                             'is_none(stack_bottom) or (0 <= some(stack_bottom) and some(stack_bottom) < len(delimiters))'],
+                             'is_none(stack_bottom) or (0 <= some(stack_bottom) and some(stack_bottom) < len(delimiters))',
+                             # the entry at the stack bottom is the bracket being closed, never an emphasis run
+                             'is_none(stack_bottom) or not EMPH(delimiters[some(stack_bottom)])'],
                    ensures=['STACK_OK(new_delimiters, string)',
                             'len(new_delimiters) == (0 if is_none(stack_bottom) else some(stack_bottom))',
                             'forall(lambda i: new_delimiters[i] == delimiters[i], 0, len(new_delimiters))'],
@@ -156,14 +170,16 @@ def build2(m):
                        'STACK_OK(delimiters, string)',
                        'is_none(stack_bottom) or (0 <= some(stack_bottom) and some(stack_bottom) < len(delimiters))',
                        'is_none(curr_pos) or (0 <= some(curr_pos) and some(curr_pos) < len(delimiters) and CLOSER_AT(delimiters, some(curr_pos)))',
-                       'is_none(curr_pos) or is_none(stack_bottom) or some(stack_bottom) <= some(curr_pos)',
+                       'is_none(curr_pos) or is_none(stack_bottom) or some(stack_bottom) < some(curr_pos)',
                        'is_none(star_bottom) or 0 <= some(star_bottom)',
                        'is_none(underscore_bottom) or 0 <= some(underscore_bottom)',
-                       'is_none(stack_bottom) or (not is_none(star_bottom) and not is_none(underscore_bottom) '
-                       'and some(star_bottom) >= some(stack_bottom) and some(underscore_bottom) >= some(stack_bottom))',
+                       # a per-kind bottom below the stack bottom can only be "None at position 1" (stack bottom 0)
+                       'is_none(stack_bottom) or (some(stack_bottom) == 0 if is_none(star_bottom) else some(star_bottom) >= some(stack_bottom))',
+                       'is_none(stack_bottom) or (some(stack_bottom) == 0 if is_none(underscore_bottom) else some(underscore_bottom) >= some(stack_bottom))',
+                       'is_none(stack_bottom) or not EMPH(delimiters[some(stack_bottom)])',
                        'forall(lambda i: delimiters[i] == old(delimiters)[i], 0, (0 if is_none(stack_bottom) else some(stack_bottom) + 1))',
                    ])},
-                   prop=P, options={'tier': 'thorough', 'concat_axioms': True},
+                   prop=P, options={'concat_axioms': True},
                    note='termination of loop#0 is not proved (lexicographic variant over a sum of heap fields); '
                         'index and attribute safety do not depend on it'))
 
@@ -208,28 +224,29 @@ def build3(m):
                         'keeps the stack invariant (it removes entries and calls process_emphasis)'))
     RUN = ("(arg_string[arg_start:arg_end] == '[' or arg_string[arg_start:arg_end] == '![' or "
            "((arg_string[arg_start] == '*' or arg_string[arg_start] == '_') and "
-           "forall(lambda k: arg_string[k] == arg_string[arg_start], arg_start, arg_end)))")
+           "forall(lambda k: implies(arg_start <= k and k < arg_end, arg_string[k] == arg_string[arg_start]), 0, len(arg_string))))")
     m.add(Contract(MOD + ':find_core_tokens', [('string', STR), ('root', TOpt(TRef('Token')))], returns=TList(MO),
                    modifies=['G:core_tokens._code_matches'] + FIELDS,
                    body_types={'in_delimiter_run': TOpt(STR), 'code_match': TOpt(MATCH), 'delimiters': TList(DL),
                                'matches': TList(MO)},
-                   call_asserts={MOD + ':Delimiter.__init__': [
-                       # C06 / C02: what goes on the delimiter stack is a link/image opener or a run of
-                       # one emphasis character (never an unrelated neighbour character)
-                       (RUN, ['C06', 'C02'])]},
                    loops={0: Loop(invariant=[
                        '0 <= i', 'i <= len(string)',
-                       'STACK_OK(delimiters, string)',
-                       'forall(lambda i: allocated(delimiters[i]), 0, len(delimiters))',
+                       'forall(lambda j: DELIM_OK(delimiters[j]), 0, len(delimiters))',
+                       'forall(lambda j: EMPH_RUN(delimiters[j]), 0, len(delimiters))',
+                       'forall(lambda j: delimiters[j].end <= len(string), 0, len(delimiters))',
+                       "forall(lambda j: field(delimiters[j], '__has_open') == field(delimiters[j], '__has_close'), 0, len(delimiters))",
+                       'forall(lambda j, k: implies(j < k, delimiters[j] != delimiters[k]), 0, len(delimiters), 0, len(delimiters))',
+                       'forall(lambda j: allocated(delimiters[j]), 0, len(delimiters))',
                        'implies(escaped, i >= 1)',
                        'implies(in_image, i >= 1 and string[i - 1] == "!" and not escaped)',
                        "is_none(in_delimiter_run) or some(in_delimiter_run) == '*' or some(in_delimiter_run) == '_'",
                        'implies(not is_none(in_delimiter_run), 0 <= start and start < i - (1 if escaped else 0) and '
-                       'forall(lambda k: string[k] == some(in_delimiter_run), start, i - (1 if escaped else 0)))',
+                       'forall(lambda k: implies(start <= k and k < i - (1 if escaped else 0), string[k] == some(in_delimiter_run)), 0, len(string)))',
                        'is_none(code_match) or (m_start(some(code_match), 0) < m_end(some(code_match), 0) and '
                        'm_end(some(code_match), 0) <= len(string) and 0 <= m_start(some(code_match), 0))',
                    ], decreases='len(string) - i')},
-                   prop=['C01'], note='process_emphasis and find_link_image are used by contract'))
+                   prop=['C01', 'C06', 'C02'], note='process_emphasis and find_link_image are used by contract; the C06/C02 '
+                        'clause is the precondition of Delimiter.__init__ (run shape), proved at each of its call sites'))
 
 
 def build4(m):
